@@ -21,6 +21,7 @@ func init() {
 	reg("C04", ruleOmitEmptyOnlyWhereEmptyMeansAbsent, ruleBackEndsDoNotReorderTheModel, ruleRawJSONProvenance, ruleWriteIfNeeded)
 	reg("C15", ruleOmitEmptyOnlyWhereEmptyMeansAbsent, ruleBackEndsDoNotReorderTheModel, ruleWriteIfNeeded)
 	reg("C03", ruleBackEndsDoNotReorderTheModel)
+	reg("C19", ruleBackEndsDoNotReorderTheModel)
 	reg("C12", ruleBackEndsDoNotReorderTheModel, ruleSinkAddKeepsEverything, ruleWalkKeepsEveryModelFile)
 	reg("C10", ruleRawJSONProvenance, ruleShiftCountsBounded, rulePrunes(topoSortFiles, "V5", 2))
 	reg("C06", ruleEvolutionMemoPerPredecessor)
@@ -98,9 +99,12 @@ func ruleOmitEmptyOnlyWhereEmptyMeansAbsent(c *core.Ctx) {
 // ---------------------------------------------------------------------------------------------------------------
 func ruleBackEndsDoNotReorderTheModel(c *core.Ctx) {
 	const rule = "MU1"
-	c.Rule(rule, "internal/* (back ends, command layer): the slice handed to sort.Slice / SliceStable / Sort / Stable / Strings / slices.Sort* / slices.Reverse is a local copy (built with make/append/keys of a map), never a field of a definition / type / protocol node of pkg/dsl or a local that aliases one (fields of expression nodes, printed once per back end and not part of the schema, are outside the clause)", 4)
+	c.Rule(rule, "internal/* (back ends, command layer): the slice handed to sort.Slice / SliceStable / Sort / Stable / Strings / slices.Sort* / slices.Reverse is a local copy (built with make/append/keys of a map), never a field of a definition / type / protocol node of pkg/dsl or a local that aliases one (a field of an expression node, which is printed once per back end and is not part of the schema, may be reordered only by the back end that internal/cmd runs last)", 4)
 	sorters := map[string]bool{"sort.Slice": true, "sort.SliceStable": true, "sort.Sort": true, "sort.Stable": true, "sort.Strings": true, "sort.Ints": true,
 		"slices.Sort": true, "slices.SortFunc": true, "slices.SortStableFunc": true, "slices.Reverse": true}
+	// set by isDslField when the field belongs to an EXPRESSION node: an expression is printed once by each back end and is
+	// not part of the schema, so reordering it in place is visible only to a back end that runs LATER in the same run
+	exprNodeField := false
 	isDslField := func(info *types.Info, e ast.Expr) bool {
 		// a selector (possibly sliced / converted) whose receiver is a value of a pkg/dsl type
 		for {
@@ -120,9 +124,8 @@ func ruleBackEndsDoNotReorderTheModel(c *core.Ctx) {
 					return false
 				}
 				if v, ok := sel.Obj().(*types.Var); ok && v.Pkg() != nil && strings.HasSuffix(v.Pkg().Path(), "/pkg/dsl") {
-					// fields of EXPRESSION nodes are outside the clause: an expression is printed once by each back end
-					// and is not part of the schema (the MATLAB emitter reverses the arguments of a subscript it is
-					// printing, and nothing reads them again)
+					// fields of EXPRESSION nodes: see exprNodeField (the MATLAB emitter reverses the arguments of the subscript
+					// it is printing)
 					if ex, _ := v.Pkg().Scope().Lookup("Expression").(*types.TypeName); ex != nil {
 						if it, ok := ex.Type().Underlying().(*types.Interface); ok {
 							rt := sel.Recv()
@@ -130,7 +133,8 @@ func ruleBackEndsDoNotReorderTheModel(c *core.Ctx) {
 								rt = types.NewPointer(rt)
 							}
 							if types.Implements(rt, it) {
-								return false
+								exprNodeField = true
+								return true
 							}
 						}
 					}
@@ -163,6 +167,7 @@ func ruleBackEndsDoNotReorderTheModel(c *core.Ctx) {
 			n++
 			arg := ast.Unparen(ce.Args[0])
 			why := ""
+			exprNodeField = false
 			switch {
 			case isDslField(info, arg):
 				why = "`" + types.ExprString(arg) + "` is a field of the model"
@@ -201,6 +206,20 @@ func ruleBackEndsDoNotReorderTheModel(c *core.Ctx) {
 				}
 			}
 			key := fmt.Sprintf("%s/%s(%s)", c.FuncName(d), core.FullName(f), types.ExprString(arg))
+			if why != "" && exprNodeField {
+				// tolerated only in the back end that runs last: nothing reads the expression afterwards
+				be := backEndOf(p.PkgPath)
+				last, order, decided := lastBackEndOfARun(c)
+				switch {
+				case !decided:
+					c.Undecided(rule, key, ce.Pos(), "an expression node of the model is reordered in place ("+why+"), which is invisible only if no back end runs after `"+be+"`; the order in which internal/cmd calls the back ends could not be determined")
+				case last == be:
+					c.OK(rule, key, ce.Pos(), "reorders an expression node in place, in the back end that internal/cmd runs last ("+strings.Join(order, ", ")+"): nothing reads the expression afterwards")
+				default:
+					c.Bad(rule, key, ce.Pos(), "reorders an expression node of the model in place ("+why+") although other back ends run after `"+be+"` (order: "+strings.Join(order, ", ")+"): they print the subscript arguments / operands in the order this back end left them — the same expression means different things in the generated languages")
+				}
+				return true
+			}
 			c.Check(why == "", rule, key, ce.Pos(), "sorts a local collection",
 				"sorts the model in place: "+why+" — the order of the definition's members changes for everything generated afterwards in the same run (the schema literals of the other back ends, value tables), so the back ends disagree with each other and with a run that generates one of them alone")
 			return true
@@ -1116,4 +1135,469 @@ func init() {
 	reg("C05", ruleLoopVerdictsAccumulate)
 	reg("C06", ruleLoopVerdictsAccumulate)
 	reg("C09", ruleLoopVerdictsAccumulate)
+}
+
+// ---------------------------------------------------------------------------------------------------------------
+// BN1: `if a.F != nil && b.F != nil { compare }` on the same optional field of two values says nothing about the
+// mixed case (one set, one not). Without an else the mixed case counts as "no difference".
+// ---------------------------------------------------------------------------------------------------------------
+func ruleBothSetGuardsHandleTheMixedCase(c *core.Ctx) {
+	const rule = "BN1"
+	c.Rule(rule, "pkg/dsl: an `if x.F != nil && y.F != nil` over the same nil-able field of two values has an else branch (or follows a test of the mixed case): a field set on one side only is a difference, not nothing", 1)
+	p := c.Pkg("pkg/dsl")
+	if p == nil {
+		c.Undecided(rule, "anchor/pkg/dsl", 0, "package not found")
+		return
+	}
+	info := p.TypesInfo
+	n := 0
+	nilTest := func(e ast.Expr) (recv string, field *types.Var, ok bool) {
+		be, isB := ast.Unparen(e).(*ast.BinaryExpr)
+		if !isB || be.Op != token.NEQ {
+			return "", nil, false
+		}
+		x, y := ast.Unparen(be.X), ast.Unparen(be.Y)
+		if id, isId := y.(*ast.Ident); !isId || id.Name != "nil" {
+			if id2, isId2 := x.(*ast.Ident); isId2 && id2.Name == "nil" {
+				x = y
+			} else {
+				return "", nil, false
+			}
+		}
+		se, isSel := x.(*ast.SelectorExpr)
+		if !isSel {
+			return "", nil, false
+		}
+		sel := info.Selections[se]
+		if sel == nil || sel.Kind() != types.FieldVal {
+			return "", nil, false
+		}
+		v, _ := sel.Obj().(*types.Var)
+		return types.ExprString(se.X), v, v != nil
+	}
+	for _, d := range c.AllDecls() {
+		if c.DeclPkg(d) != p || d.Body == nil || c.IsTestFile(d.Pos()) {
+			continue
+		}
+		ast.Inspect(d.Body, func(m ast.Node) bool {
+			is, ok := m.(*ast.IfStmt)
+			if !ok {
+				return true
+			}
+			be, ok := ast.Unparen(is.Cond).(*ast.BinaryExpr)
+			if !ok || be.Op != token.LAND {
+				return true
+			}
+			r1, f1, ok1 := nilTest(be.X)
+			r2, f2, ok2 := nilTest(be.Y)
+			if !ok1 || !ok2 || f1 != f2 || r1 == r2 {
+				return true
+			}
+			n++
+			mixedBefore := false
+			ast.Inspect(d.Body, func(q ast.Node) bool {
+				if b2, ok := q.(*ast.BinaryExpr); ok && b2.End() < is.Pos() && b2.Op == token.NEQ {
+					l, r := types.ExprString(b2.X), types.ExprString(b2.Y)
+					if strings.Contains(l, "== nil") && strings.Contains(r, "== nil") && strings.Contains(l, f1.Name()) && strings.Contains(r, f1.Name()) {
+						mixedBefore = true
+					}
+				}
+				return true
+			})
+			c.Check(is.Else != nil || mixedBefore, rule, fmt.Sprintf("%s/%s.%s and %s.%s both set", c.FuncName(d), r1, f1.Name(), r2, f2.Name()), is.Pos(),
+				"the other cases are handled in the else branch",
+				fmt.Sprintf("`%s` is examined only when it is set on both sides and nothing handles the case that one side has it and the other has not: that difference (an explicit base type against the default one, say) counts as no change", f1.Name()))
+			return true
+		})
+	}
+	if n == 0 {
+		c.Undecided(rule, "anchor/both-set guards", 0, "none found")
+	}
+}
+
+func init() {
+	reg("C05", ruleBothSetGuardsHandleTheMixedCase)
+	reg("C06", ruleBothSetGuardsHandleTheMixedCase)
+}
+
+// ---------------------------------------------------------------------------------------------------------------
+// EB1: a Python block header (`class X:`, `def f():`, `if c:`, `for x in y:` …) printed by the Python back end is
+// followed by an indented body that prints at least one statement for EVERY model: a body made only of loops over
+// model collections and conditional prints is empty for the model whose collections are empty.
+// ---------------------------------------------------------------------------------------------------------------
+func ruleEmittedPythonBlocksAreNeverEmpty(c *core.Ctx) {
+	const rule = "EB1"
+	c.Rule(rule, "python back end: the w.Indented(...) body that follows a printed block header (a line ending in `:`) prints a statement on every path — an unconditional print, or a `pass` — not only inside loops over model collections and conditional prints", 20)
+	n := 0
+	for _, d := range c.AllDecls() {
+		p := c.DeclPkg(d)
+		if p == nil || d.Body == nil || c.IsTestFile(d.Pos()) || !strings.Contains(p.PkgPath, "/internal/python") {
+			continue
+		}
+		info := p.TypesInfo
+		constStr := func(e ast.Expr) (string, bool) {
+			if tv, ok := info.Types[e]; ok && tv.Value != nil && tv.Value.Kind() == constant.String {
+				return constant.StringVal(tv.Value), true
+			}
+			return "", false
+		}
+		emitLit := func(s ast.Stmt) (string, bool) {
+			es, ok := s.(*ast.ExprStmt)
+			if !ok {
+				return "", false
+			}
+			ce, ok := es.X.(*ast.CallExpr)
+			if !ok {
+				return "", false
+			}
+			name := types.ExprString(ce.Fun)
+			if !(strings.HasSuffix(name, "Fprintf") || strings.HasSuffix(name, "WriteString") || strings.HasSuffix(name, "WriteStringln") || strings.HasSuffix(name, "Fprintln") || strings.HasSuffix(name, "Fprint")) {
+				return "", false
+			}
+			for _, a := range ce.Args {
+				if s, ok := constStr(a); ok {
+					if strings.HasSuffix(name, "ln") {
+						s += "\n"
+					}
+					return s, true
+				}
+			}
+			return "", false
+		}
+		// does the statement list print something non-blank on every path?
+		var definite func(list []ast.Stmt, depth int) bool
+		definite = func(list []ast.Stmt, depth int) bool {
+			if depth > 4 {
+				return false
+			}
+			for _, s := range list {
+				if lit, ok := emitLit(s); ok {
+					if strings.TrimSpace(lit) != "" {
+						return true
+					}
+					continue
+				}
+				switch x := s.(type) {
+				case *ast.IfStmt:
+					if eb, ok := x.Else.(*ast.BlockStmt); ok && definite(x.Body.List, depth+1) && definite(eb.List, depth+1) {
+						return true
+					}
+				case *ast.BlockStmt:
+					if definite(x.List, depth+1) {
+						return true
+					}
+				case *ast.SwitchStmt:
+					// every clause prints, and the clauses cover a default or every constant of the tag's type
+					all, hasDefault := len(x.Body.List) > 0, false
+					listed := map[string]bool{}
+					for _, cl := range x.Body.List {
+						cc := cl.(*ast.CaseClause)
+						if cc.List == nil {
+							hasDefault = true
+						}
+						for _, e := range cc.List {
+							if tv, ok := info.Types[e]; ok && tv.Value != nil {
+								listed[tv.Value.ExactString()] = true
+							}
+						}
+						if !definite(cc.Body, depth+1) {
+							all = false
+						}
+					}
+					if all && !hasDefault && x.Tag != nil {
+						if nt := core.NamedOf(info.TypeOf(x.Tag)); nt != nil && nt.Obj().Pkg() != nil {
+							total, covered := 0, 0
+							sc := nt.Obj().Pkg().Scope()
+							for _, name := range sc.Names() {
+								if k, ok := sc.Lookup(name).(*types.Const); ok && types.Identical(k.Type(), nt) {
+									total++
+									if listed[k.Val().ExactString()] {
+										covered++
+									}
+								}
+							}
+							hasDefault = total > 0 && covered == total
+						}
+					}
+					if all && hasDefault {
+						return true
+					}
+				case *ast.RangeStmt:
+					// validated facts: the parser rejects a record without fields ("must define at least one field"), a
+					// protocol without steps ("must define a non-empty sequence") and a union without options; a union class
+					// is written for a type with at least one non-null case — loops over these print at least once
+					if t := info.TypeOf(x.X); t != nil {
+						el := t
+						if sl, ok := t.Underlying().(*types.Slice); ok {
+							el = sl.Elem()
+						}
+						if pt, ok := el.(*types.Pointer); ok {
+							el = pt.Elem()
+						}
+						if nt := core.NamedOf(el); nt != nil && nt.Obj().Pkg() != nil && strings.HasSuffix(nt.Obj().Pkg().Path(), "/pkg/dsl") {
+							switch nt.Obj().Name() {
+							case "Field", "ProtocolStep", "TypeCase":
+								body := x.Body.List
+								for len(body) > 0 { // `if tc.Type == nil { continue }`
+									is, ok := body[0].(*ast.IfStmt)
+									if !ok || is.Else != nil || len(is.Body.List) != 1 {
+										break
+									}
+									br, ok := is.Body.List[0].(*ast.BranchStmt)
+									if !ok || br.Tok != token.CONTINUE {
+										break
+									}
+									body = body[1:]
+								}
+								if definite(body, depth+1) {
+									return true
+								}
+							}
+						}
+					}
+				case *ast.ExprStmt:
+					if ce, ok := x.X.(*ast.CallExpr); ok {
+						// printing an expression of the model always prints something
+						for _, a := range ce.Args {
+							if t := info.TypeOf(a); t != nil {
+								if nt := core.NamedOf(t); nt != nil && nt.Obj().Pkg() != nil && strings.HasSuffix(nt.Obj().Pkg().Path(), "/pkg/dsl") && nt.Obj().Name() == "Expression" {
+									return true
+								}
+							}
+						}
+						// w.Indented(func(){...}) nested, or a local closure / package helper whose body prints definitely
+						if strings.HasSuffix(types.ExprString(ce.Fun), "Indented") && len(ce.Args) == 1 {
+							if fl, ok := ast.Unparen(ce.Args[0]).(*ast.FuncLit); ok && definite(fl.Body.List, depth+1) {
+								return true
+							}
+						}
+						if f := core.Callee(info, ce); f != nil && core.InModule(f) {
+							if fd := c.Decl(f); fd != nil && fd.Body != nil && c.DeclPkg(fd) == p && definite(fd.Body.List, depth+1) {
+								return true
+							}
+						}
+					}
+				case *ast.ReturnStmt:
+					return false
+				}
+			}
+			// case analysis over the conditions of the top-level statements: `for v := range X {print}` prints when X is
+			// not empty, `if len(X) == 0 && !flag {print "pass"}` when it is — together they may cover every case
+			atoms := []string{}
+			addAtom := func(a string) {
+				for _, x := range atoms {
+					if x == a {
+						return
+					}
+				}
+				atoms = append(atoms, a)
+			}
+			var eval func(e ast.Expr, env map[string]bool) (bool, bool)
+			lenAtom := func(e ast.Expr) (string, bool) { // len(X) -> "empty:X"
+				if ce, ok := ast.Unparen(e).(*ast.CallExpr); ok && len(ce.Args) == 1 {
+					if id, ok := ast.Unparen(ce.Fun).(*ast.Ident); ok && id.Name == "len" {
+						return "empty:" + types.ExprString(ce.Args[0]), true
+					}
+				}
+				return "", false
+			}
+			eval = func(e ast.Expr, env map[string]bool) (val bool, known bool) {
+				switch x := ast.Unparen(e).(type) {
+				case *ast.UnaryExpr:
+					if x.Op == token.NOT {
+						v, k := eval(x.X, env)
+						return !v, k
+					}
+				case *ast.BinaryExpr:
+					switch x.Op {
+					case token.LAND, token.LOR:
+						a, ka := eval(x.X, env)
+						b, kb := eval(x.Y, env)
+						if x.Op == token.LAND {
+							return a && b, ka && kb
+						}
+						return a || b, ka && kb
+					case token.EQL, token.NEQ, token.GTR:
+						if at, ok := lenAtom(x.X); ok {
+							if tv, ok := info.Types[x.Y]; ok && tv.Value != nil && tv.Value.ExactString() == "0" {
+								addAtom(at)
+								empty := env[at]
+								if x.Op == token.EQL {
+									return empty, true
+								}
+								return !empty, true
+							}
+						}
+					}
+				case *ast.Ident, *ast.SelectorExpr:
+					if t := info.TypeOf(x); t != nil {
+						if b, ok := t.Underlying().(*types.Basic); ok && b.Kind() == types.Bool {
+							a := "bool:" + types.ExprString(x)
+							addAtom(a)
+							return env[a], true
+						}
+					}
+				}
+				return false, false
+			}
+			printsUnder := func(env map[string]bool) bool {
+				for _, s := range list {
+					switch x := s.(type) {
+					case *ast.RangeStmt:
+						a := "empty:" + types.ExprString(x.X)
+						addAtom(a)
+						if !env[a] && definite(x.Body.List, depth+1) {
+							return true
+						}
+					case *ast.IfStmt:
+						if x.Init != nil {
+							continue
+						}
+						v, known := eval(x.Cond, env)
+						if known && v && definite(x.Body.List, depth+1) {
+							return true
+						}
+						if eb, ok := x.Else.(*ast.BlockStmt); ok && known && !v && definite(eb.List, depth+1) {
+							return true
+						}
+					}
+				}
+				return false
+			}
+			printsUnder(map[string]bool{}) // collects the atoms
+			if len(atoms) > 0 && len(atoms) <= 6 {
+				all := true
+				for m := 0; m < 1<<len(atoms); m++ {
+					env := map[string]bool{}
+					for i, a := range atoms {
+						env[a] = m&(1<<i) != 0
+					}
+					if !printsUnder(env) {
+						all = false
+						break
+					}
+				}
+				if all {
+					return true
+				}
+			}
+			return false
+		}
+		var walk func(list []ast.Stmt)
+		walk = func(list []ast.Stmt) {
+			for i := 0; i+1 < len(list); i++ {
+				hdr, ok := emitLit(list[i])
+				if !ok {
+					continue
+				}
+				h := strings.TrimRight(hdr, "\n")
+				if !strings.HasSuffix(h, ":") || strings.HasPrefix(strings.TrimSpace(h), "#") || strings.HasPrefix(strings.TrimSpace(h), "\"") {
+					continue
+				}
+				es, ok := list[i+1].(*ast.ExprStmt)
+				if !ok {
+					continue
+				}
+				ind, ok := es.X.(*ast.CallExpr)
+				if !ok || !strings.HasSuffix(types.ExprString(ind.Fun), "Indented") || len(ind.Args) != 1 {
+					continue
+				}
+				fl, ok := ast.Unparen(ind.Args[0]).(*ast.FuncLit)
+				if !ok {
+					continue
+				}
+				n++
+				key := fmt.Sprintf("%s/%s", c.FuncName(d), strings.TrimSpace(firstWords(h, 5)))
+				c.Check(definite(fl.Body.List, 0), rule, key, ind.Pos(), "the body prints a statement on every path",
+					"the body printed under `"+strings.TrimSpace(h)+"` consists of loops over model collections and conditional prints only: for a definition whose collections are empty (an enum without values, a record without fields) nothing is printed and the generated Python module does not compile (IndentationError)")
+			}
+			for _, s := range list {
+				ast.Inspect(s, func(m ast.Node) bool {
+					switch x := m.(type) {
+					case *ast.BlockStmt:
+						walk(x.List)
+						return false
+					case *ast.CaseClause:
+						walk(x.Body)
+						return false
+					}
+					return true
+				})
+			}
+		}
+		walk(d.Body.List)
+	}
+	if n == 0 {
+		c.Undecided(rule, "anchor/printed Python block headers", 0, "none found")
+	}
+}
+
+func init() {
+	reg("C08", ruleEmittedPythonBlocksAreNeverEmpty)
+}
+
+
+func backEndOf(pkgPath string) string {
+	rest := pkgPath
+	if i := strings.Index(rest, "/internal/"); i >= 0 {
+		rest = rest[i+len("/internal/"):]
+	}
+	if i := strings.Index(rest, "/"); i >= 0 {
+		rest = rest[:i]
+	}
+	return rest
+}
+
+// lastBackEndOfARun: the function of internal/cmd that calls the Generate functions of several back ends, and the
+// back end whose call stands last in it (source order of the calls; a table of closures is read in the order it is
+// written, so a table that is not in execution order must be re-reviewed).
+func lastBackEndOfARun(c *core.Ctx) (last string, order []string, decided bool) {
+	p := c.Pkg("internal/cmd")
+	if p == nil {
+		return "", nil, false
+	}
+	info := p.TypesInfo
+	for _, d := range c.AllDecls() {
+		if c.DeclPkg(d) != p || d.Body == nil || c.IsTestFile(d.Pos()) {
+			continue
+		}
+		type site struct {
+			pos token.Pos
+			be  string
+		}
+		var sites []site
+		sorted := false
+		ast.Inspect(d.Body, func(m ast.Node) bool {
+			ce, ok := m.(*ast.CallExpr)
+			if !ok {
+				return true
+			}
+			f := core.Callee(info, ce)
+			if f == nil || f.Pkg() == nil {
+				return true
+			}
+			if f.Pkg().Path() == "sort" || f.Pkg().Path() == "slices" {
+				sorted = true // the calls may be re-ordered at run time
+			}
+			if f.Name() == "Generate" && core.InModule(f) && strings.Contains(f.Pkg().Path(), "/internal/") && f.Pkg() != p.Types {
+				sites = append(sites, site{ce.Pos(), backEndOf(f.Pkg().Path())})
+			}
+			return true
+		})
+		distinct := map[string]bool{}
+		for _, s := range sites {
+			distinct[s.be] = true
+		}
+		if len(distinct) < 2 {
+			continue
+		}
+		if sorted {
+			return "", nil, false
+		}
+		for _, s := range sites {
+			order = append(order, s.be)
+		}
+		return sites[len(sites)-1].be, order, true
+	}
+	return "", nil, false
 }
